@@ -663,7 +663,7 @@ func c17OnlyViaNameFilter(entry *ssa.BasicBlock, sel *ssa.Select, reread *ssa.Ca
 			bo := v.(*ssa.BinOp)
 			k := "nameEq:" + canon(bo.X) + "|" + canon(bo.Y)
 			if bo.Op == token.NEQ {
-				return "" // handled through NOT of the EQL form below
+				return "!" + k // ev.Name != path: the negation of the comparison atom
 			}
 			return k
 		}
